@@ -38,6 +38,13 @@ def run_case(nvoters, F, seed, steps=120):
                     break
         cl.step(('Tick', 'a', 'j'))
         drain()
+        for o_ in observers:
+            for v_ in ids:
+                if cl.applicable(('Connect', o_, v_)):
+                    cl.step(('Connect', o_, v_))
+        drain()
+        cl.step(('Tick', 'a', 'z'))
+        drain()
         L = cl.nodes['a']
         t0 = L.clock
         acks = {}          # cid -> observation index at submission
